@@ -27,6 +27,9 @@ NARROW_UNI = ([chr(c) for c in range(0x00C0, 0x0180)]
 # introducers (they would start sequences in the terminal models), not the line separators str.splitlines knows
 KEPT_CONTROLS = ["\x01", "\x02", "\x0e", "\x1a", "\x1f", "\x7f", "\x80", "\x9f"]
 STRIPPED_CONTROLS = "\b\v\f\r"          # what Text strips (rich.control.strip_control_codes)
+# white space beyond ASCII (str.isspace() is true, str.split() and the regex class \s break on them): U+3000 is the one
+# that is TWO cells wide
+UNICODE_SPACES = ["\u3000", "\u3000", "\u2003", "\u00a0", "\u1680", "\u205f"]
 SEPARATOR_ODDITIES = [" ", " ", "\x85", "\x1c", "\x1d", "\x1e"]
 # glyphs that frames and guides draw: excluded from unique alphabets
 FRAME_GLYPHS = set("+-|=─━═│┃║┄┅┆┇┈┉┊┋╌╍╎╏┌┍┎┏┐┑┒┓└┕┖┗┘┙┚┛├┝┞┟┠┡┢┣┤┥┦┧┨┩┪┫┬┭┮┯┰┱┲┳"
@@ -79,7 +82,8 @@ def classes():
     if _TABLE_CLASSES is None:
         _TABLE_CLASSES = _table_classes()
     return {"ascii": ASCII_LETTERS, "punct": ASCII_PUNCT, "wide": WIDE, "zero": ZERO,
-            "narrow": NARROW_UNI, "edge": _TABLE_CLASSES[0], "sporadic": _TABLE_CLASSES[1], "control": KEPT_CONTROLS}
+            "narrow": NARROW_UNI, "edge": _TABLE_CLASSES[0], "sporadic": _TABLE_CLASSES[1], "control": KEPT_CONTROLS,
+            "uspace": UNICODE_SPACES}
 
 
 _TABLE_CLASSES = None
@@ -101,6 +105,15 @@ def sparse_odd_string(rng, min_len=65, max_len=300):
     return "".join(out)
 
 
+def blank_line(rng, min_len=65, max_len=130):
+    """A long line of nothing but white space, some of it the two-cell IDEOGRAPHIC SPACE (a full-width spacer line):
+    what a shortcut for "all blank" strings that counts characters instead of cells gets wrong."""
+    n = rng.randint(min_len, max_len)
+    out = [rng.choice([" ", " ", " ", "\u3000", "\u2003"]) for _ in range(n)]
+    out[rng.randrange(n)] = "\u3000"
+    return "".join(out)
+
+
 DEFAULT_WEIGHTS = {"ascii": 8, "punct": 1, "wide": 3, "zero": 1, "narrow": 1}
 
 
@@ -118,12 +131,15 @@ def pick_weights(rng, allow_zero=True, allow_wide=True, allow_punct=True):
         w = {"ascii": 6, "edge": 2, "sporadic": 2}
     elif mode < 0.62:
         w = {"ascii": 12, "control": 1}
+    elif mode < 0.67:
+        w = {"ascii": 8, "wide": 2, "uspace": 2}
     if not allow_zero:
         drop_zero(w)
     if not allow_wide:
         w.pop("wide", None)
         w.pop("edge", None)
         w.pop("sporadic", None)
+        w.pop("uspace", None)
         if not w:
             w["ascii"] = 1
     if not allow_punct:
@@ -176,7 +192,7 @@ class UniquePool:
     def char(self):
         for _ in range(200):
             c = rand_char(self.rng, self.weights)
-            if c not in self.used:
+            if c not in self.used and not c.isspace():
                 self.used.add(c)
                 return c
         # fall back: scan a big CJK block
